@@ -18,6 +18,7 @@ import (
 	"strings"
 
 	"github.com/BondMachineHQ/BondMachine/pkg/procbuilder"
+	"verif/internal/asmw"
 	"verif/internal/evid"
 	"verif/internal/gen"
 	"verif/internal/hx"
@@ -500,6 +501,7 @@ func portCases(rsize uint8) []caseT {
 }
 
 func main() {
+	asmw.ServeIfWorker()
 	tier, replay := hx.Args()
 	run := evid.New("C01", tier, "translation_validation")
 	run.Rule = "cases = (architecture, program, environment): directed sweeps (every two-register opcode of the claimed cells × destination/source register pairs × boundary operand values, R=1,2) and seeded random programs over random opcode subsets of the claimed cells (Rsize 8/16/32/64, R 1..3, N,M 0..5, a port sweep over every input/output index for N 0..5 x M 1..5, WordSize automatic or +3, handshaked and constant inputs, output ack delays); non-trivial = both back ends retired ≥5 instructions and a register changed, distinct by the case text"
@@ -648,5 +650,6 @@ func main() {
 		}
 	})
 	run.Set("disagreements_checked", run.Violations())
+	hwoptStage(run, scratch, tier)
 	os.Exit(run.Finish())
 }
